@@ -153,8 +153,13 @@ def detect_renames(btxt, stxt):
     for tag, i1, i2, j1, j2 in sm.get_opcodes():
         if tag != "replace" or (i2 - i1) != (j2 - j1):
             continue
-        for a, b in zip(btxt[i1:i2], stxt[j1:j2]):
+        for k, (a, b) in enumerate(zip(btxt[i1:i2], stxt[j1:j2])):
             if a == b:
+                continue
+            # a path segment / method / field name (`Duration::from` -> `Duration::epsilon`, `.min()` -> `.max()`) is a
+            # different item, not a renamed local
+            if i1 + k > 0 and btxt[i1 + k - 1] in ("::", "."):
+                bad.add(a)
                 continue
             if ident.match(a) and ident.match(b) and a not in RUST_KW and b not in RUST_KW:
                 if pairs.get(a, b) != b:
@@ -412,6 +417,7 @@ class Unit:
         stoks = src_tokens(slice_text)
         segs, base, rewrites = parse_region(region, where)
         renames = detect_renames([b[0] for b in base], [t for t, _ in stoks])
+        region0 = region
         if renames:
             region = apply_renames(region, renames)
             segs, base, rewrites = parse_region(region, where)
@@ -428,6 +434,10 @@ class Unit:
             # on: every other item of the root is still extracted from the current source and verified.
             conflict = str(ex)
             merged, changes = None, [{"op": "conflict", "was": "", "now": conflict}]
+            if renames:
+                # the registered copy is kept exactly as registered (a half-renamed copy need not even parse)
+                region, renames = region0, {}
+                segs, base, rewrites = parse_region(region, where)
         if renames:
             changes = [{"op": "rename", "was": a, "now": b} for a, b in sorted(renames.items())] + changes
             if merged is None:
